@@ -126,6 +126,7 @@ structure ReplaySafeUpTo (M : Machine S) (r : Setoid S) : Prop where
   no_commit_height : ∀ s i, committed (M.step s i).2 = false →
     M.height (M.step s i).1 = M.height s
   votes_current_height : ∀ s i v, v ∈ votesOf (effectsOf true (M.step s i).2) → v.h = M.height s
+  timers_current_height : ∀ s i t, t ∈ timersOf (effectsOf true (M.step s i).2) → t.h = M.height s
   unstarted_silent : ∀ s i, M.started s = false → i ≠ Input.start → i.isTimeout = false →
     visA (M.step s i).2 = [] ∧ M.started (M.step s i).1 = false ∧
     M.height (M.step s i).1 = M.height s
@@ -161,6 +162,8 @@ theorem ReplaySafeUpTo.quot {M : Machine S} {r : Setoid S} (h : ReplaySafeUpTo M
     intro q i; obtain ⟨s, rfl⟩ := Quotient.exists_rep q; exact h.no_commit_height s i
   votes_current_height := by
     intro q i; obtain ⟨s, rfl⟩ := Quotient.exists_rep q; exact h.votes_current_height s i
+  timers_current_height := by
+    intro q i; obtain ⟨s, rfl⟩ := Quotient.exists_rep q; exact h.timers_current_height s i
   unstarted_silent := by
     intro q i; obtain ⟨s, rfl⟩ := Quotient.exists_rep q; exact h.unstarted_silent s i
   future_silent := by
@@ -210,5 +213,23 @@ theorem recover_live_upTo {M : Machine S} {r : Setoid S} (h : ReplaySafeUpTo M r
   refine ⟨insd, (quot_listenOK M r h.bisim insd _).1 ok, Quotient.exact hst, ?_, hv⟩
   rw [hent]
   exact quot_logged M r h.bisim insd _
+
+/-- **Timers after recovery** (any history): the restart arms exactly the timers the uncrashed live
+run armed for the height the chain is waiting for, and none it did not arm. -/
+theorem recover_timers_upTo {M : Machine S} {r : Setoid S} (h : ReplaySafeUpTo M r) (c0 : Nat)
+    (n : Node) (hist : List Effect) (hm : Moment M c0 n hist) :
+    ∃ insd, ListenOK M (M.init (c0 + 1)) insd ∧
+      entriesOfRecs n.store.flushed = loggedEntries M (M.init (c0 + 1)) insd ∧
+      (∀ t ∈ timersOf (recover M n).2.1, t ∈ timersOf (liveRun M (M.init (c0 + 1)) insd).2) ∧
+      (∀ t ∈ timersOf (liveRun M (M.init (c0 + 1)) insd).2, t.h = n.chainHeight + 1 →
+        t ∈ timersOf (recover M n).2.1) := by
+  have hd := moment_durable _ h.quot c0 n hist (quot_moment M r h.bisim c0 n hist hm)
+  obtain ⟨insd, ok, hent, h1, h2⟩ := durable_timers _ h.quot c0 n hist hd
+  have e1 : (quotMachine M r h.bisim).init (c0 + 1) = Quotient.mk r (M.init (c0 + 1)) := rfl
+  rw [e1] at ok hent h1 h2
+  rw [quot_recover] at h1 h2
+  rw [quot_liveRun] at h1 h2
+  exact ⟨insd, (quot_listenOK M r h.bisim insd _).1 ok,
+    by rw [hent]; exact quot_logged M r h.bisim insd _, h1, h2⟩
 
 end Juno.C13
